@@ -645,6 +645,7 @@ fn scenario_directed(t: &mut Trace) {
     s.exec(t, "freeze", &[1, 0], 90, 0, false, &[0]);
     s.exec(t, "transfer_from", &[3, 1, 2], 10, 0, false, &[3]);
     s.exec(t, "transfer_from", &[3, 1, 2], 9, 0, false, &[3]);
+    s.exec(t, "unfreeze", &[1, 0], 50, 0, false, &[0]);
     s.env_id(t, 1, false);
     s.exec(t, "transfer_from", &[3, 1, 2], 1, 0, false, &[3]);
     s.env_id(t, 1, true);
@@ -678,6 +679,10 @@ fn scenario_directed(t: &mut Trace) {
     s.exec(t, "unfreeze", &[1, 4], 599, 0, false, &[4]);
     s.exec(t, "mint", &[1, 4], 500, 0, false, &[4]);
     s.exec(t, "freeze", &[1, 4], 200, 0, false, &[4]);
+    s.exec(t, "burn", &[1, 4], 950, 0, false, &[4]);
+    s.exec(t, "burn", &[1, 4], 0, 0, false, &[4]);
+    s.exec(t, "mint", &[1, 4], 350, 0, false, &[4]);
+    s.exec(t, "freeze", &[1, 4], 50, 0, false, &[4]);
     s.exec(t, "set_frozen", &[1, 4], 0, 0, true, &[4]);
     s.exec(t, "recover", &[1, 3, 4], 0, 0, false, &[4]);
     s.env_rec(t, 1, Some(2));
@@ -699,6 +704,67 @@ fn scenario_directed(t: &mut Trace) {
     s.exec(t, "unpause", &[3], 0, 0, false, &[3]);
     s.exec(t, "unpause", &[4], 0, 0, false, &[4]);
     s.exec(t, "unpause", &[4], 0, 0, false, &[4]);
+}
+
+/// One gate closed at a time (all others open), for transfer, transfer_from and mint: the closed
+/// gate must reject, the reopened gate must accept. Accounts are drawn per run.
+fn scenario_single_gates(t: &mut Trace, rng: &mut Rng) {
+    let admin = rng.below(N as u64) as usize;
+    let others: Vec<usize> = (0..N).filter(|x| *x != admin).collect();
+    let r = rng.below(4) as usize;
+    let (f, to, sp) = (others[r % 4], others[(r + 1) % 4], others[(r + 2) % 4]);
+    let mut s = Sim::new(1, 100, admin);
+    t.seq(&s.label("single gates"));
+    s.exec(t, "mint", &[f, admin], 10_000, 0, false, &[admin]);
+    s.exec(t, "approve", &[f, sp], 1_000_000, 50_000, false, &[f]);
+    s.exec(t, "freeze", &[f, admin], 9_000, 0, false, &[admin]);
+    for kind in ["transfer", "transfer_from", "mint"] {
+        for gate in 0..10 {
+            let amt = rng.range(1, 20) as i128;
+            let mut run = |s: &mut Sim, t: &mut Trace, amt: i128| match kind {
+                "transfer" => s.exec(t, kind, &[f, to], amt, 0, false, &[f]),
+                "transfer_from" => s.exec(t, kind, &[sp, f, to], amt, 0, false, &[sp]),
+                _ => s.exec(t, kind, &[to, admin], amt, 0, false, &[admin]),
+            };
+            // close
+            match gate {
+                0 => s.exec(t, "pause", &[admin], 0, 0, false, &[admin]),
+                1 => s.exec(t, "set_frozen", &[f, admin], 0, 0, true, &[admin]),
+                2 => s.exec(t, "set_frozen", &[to, admin], 0, 0, true, &[admin]),
+                3 => {}
+                4 => s.env_id(t, f, false),
+                5 => s.env_id(t, to, false),
+                6 => s.env_comp(t, kind == "mint", kind != "mint", i128::MAX, &[]),
+                7 => s.env_comp(t, true, true, i128::MAX, &[f]),
+                8 => s.env_comp(t, true, true, i128::MAX, &[to]),
+                _ => s.env_comp(t, true, true, amt - 1, &[]),
+            }
+            if gate == 3 {
+                let free = s.snap.free(f);
+                run(&mut s, t, free + 1);
+                run(&mut s, t, free);
+                // restore a comfortable free balance
+                let (bal, ft) = (s.snap.bal[f], s.snap.ft[f]);
+                if bal < 2_000 {
+                    s.exec(t, "mint", &[f, admin], 10_000, 0, false, &[admin]);
+                } else if bal - ft < 500 {
+                    s.exec(t, "unfreeze", &[f, admin], 500.min(ft), 0, false, &[admin]);
+                }
+                continue;
+            }
+            run(&mut s, t, amt);
+            // reopen
+            match gate {
+                0 => s.exec(t, "unpause", &[admin], 0, 0, false, &[admin]),
+                1 => s.exec(t, "set_frozen", &[f, admin], 0, 0, false, &[admin]),
+                2 => s.exec(t, "set_frozen", &[to, admin], 0, 0, false, &[admin]),
+                4 => s.env_id(t, f, true),
+                5 => s.env_id(t, to, true),
+                _ => s.env_comp(t, true, true, i128::MAX, &[]),
+            }
+            run(&mut s, t, amt);
+        }
+    }
 }
 
 /// Every entry point crossed with every combination of the seven gate bits (Gray-code walk, one
@@ -730,7 +796,7 @@ fn scenario_gate_sweep(t: &mut Trace, rng: &mut Rng, per_combo: usize) {
             32 | 64 => s.env_comp(t, !on(5), !on(6), i128::MAX, &[]),
             _ => unreachable!(),
         }
-        for _ in 0..per_combo {
+        for round in 0..per_combo + 2 {
             // make the free balance of `f` small and known: free = k
             let k = rng.range(1, 40) as i128;
             let (bal, ft) = (s.snap.bal[f], s.snap.ft[f]);
@@ -745,8 +811,13 @@ fn scenario_gate_sweep(t: &mut Trace, rng: &mut Rng, per_combo: usize) {
             } else if want < ft {
                 s.exec(t, "unfreeze", &[f, admin], ft - want, 0, false, &[admin]);
             }
-            let kind = *rng.pick(&kinds);
-            let amount = *rng.pick(&[k - 1, k, k, k + 1, 0, k + 5]);
+            // the two holder moves at every combination, then a few others
+            let kind = match round {
+                0 => "transfer",
+                1 => "transfer_from",
+                _ => *rng.pick(&kinds),
+            };
+            let amount = *rng.pick(&[k - 1, k, k, k, k + 1, 0]);
             match kind {
                 "transfer" => s.exec(t, kind, &[f, to], amount, 0, false, &[f]),
                 "transfer_from" => s.exec(t, kind, &[sp, f, to], amount, 0, false, &[sp]),
@@ -942,9 +1013,12 @@ fn main() {
     let nseq = arg_u64("--seqs", if thorough { 600 } else { 140 });
     let len = arg_u64("--len", 45);
     let sweeps = arg_u64("--sweeps", if thorough { 6 } else { 1 });
-    let per_combo = arg_u64("--per-combo", if thorough { 6 } else { 3 }) as usize;
+    let per_combo = arg_u64("--per-combo", if thorough { 4 } else { 2 }) as usize;
     let mut rng = Rng::new(seed);
     scenario_directed(&mut t);
+    for _ in 0..(if thorough { 4 } else { 2 }) {
+        scenario_single_gates(&mut t, &mut rng);
+    }
     for _ in 0..sweeps {
         scenario_gate_sweep(&mut t, &mut rng, per_combo);
     }
